@@ -1,4 +1,5 @@
 import collections
+import os
 import struct
 import sys
 
@@ -13,8 +14,15 @@ from .types import Instruction, Label, Assignment, InstructionPointer, WordList,
 from . import reports
 
 
+# Verification hook (add-only, off unless PDPY11_VERIF=1): records, per emitting statement,
+# the address it was given and the chunk it produced. See /verif/DESIGN.md.
+VERIF_HOOKS = os.environ.get("PDPY11_VERIF") == "1"
+
+
 class Compiler:
     def __init__(self, output_charset="bk"):
+        if VERIF_HOOKS:
+            self.verif_trace = []
         self.symbols = CaseInsensitiveDict()
         self.extern_symbols_mapping = CaseInsensitiveDict()
         self.emitted_files = []
@@ -53,6 +61,8 @@ class Compiler:
                 state = {**state, "insn": insn, "emit_address": addr, "local_symbol_prefix": local_symbol_prefix}
                 if isinstance(insn, Instruction):
                     chunk = self.compile_insn(insn, state)
+                    if VERIF_HOOKS:
+                        self.verif_trace.append((insn, addr, chunk, state))
                     if chunk is not None:
                         data += chunk
                         if isinstance(chunk, BaseDeferred):
@@ -62,6 +72,8 @@ class Compiler:
 
                 elif isinstance(insn, WordList):
                     chunk = self.compile_word_list(insn, insn.words, state)
+                    if VERIF_HOOKS:
+                        self.verif_trace.append((insn, addr, chunk, state))
                     data += chunk
                     if isinstance(chunk, BaseDeferred):
                         addr += chunk.length()
@@ -103,6 +115,8 @@ class Compiler:
                                     return b"\x00" * length
 
                                 chunk = Deferred[bytes](fn)
+                                if VERIF_HOOKS:
+                                    self.verif_trace.append((insn, addr, chunk, state))
                                 data += chunk
                                 if isinstance(chunk, BaseDeferred):
                                     addr += chunk.length()
